@@ -74,10 +74,46 @@ the active tip only ever changes to a chain with strictly more work.) -/
 def IsBest (D : List BlockAbs) (t : Hash) : Prop :=
   ∃ w, ValidChain D t w ∧ ∀ h w', ValidChain D h w' → w' ≤ w
 
+/-- hashes currently excluded by a manual invalidation (history oldest first): `invalidate h` adds
+`h`, `reconsider h` removes it -/
+def excludedFrom (X : List Hash) : List Op → List Hash
+  | [] => X
+  | .invalidate h _ :: r => excludedFrom (h :: X.filter (· != h)) r
+  | .reconsider h _ :: r => excludedFrom (X.filter (· != h)) r
+  | _ :: r => excludedFrom X r
+
+def excluded (ops : List Op) : List Hash := excludedFrom [] ops
+
+/-- valid delivered chains that avoid every block of `X` -/
+inductive ValidChainEx (D : List BlockAbs) (X : List Hash) : Hash → Nat → Prop where
+  | genesis : ValidChainEx D X 0 0
+  | step {b : BlockAbs} {w : Nat} :
+      b ∈ D → b.ok = true → b.hash ∉ X → ValidChainEx D X b.parent w → ValidChainEx D X b.hash (w + b.work)
+
+/-- best tip among the valid delivered chains that avoid `X` -/
+def IsBestEx (D : List BlockAbs) (X : List Hash) (t : Hash) : Prop :=
+  ∃ w, ValidChainEx D X t w ∧ ∀ h w', ValidChainEx D X h w' → w' ≤ w
+
 /-- hashes identify blocks (collision-freeness of the block hash, an explicit hypothesis), no
 delivered block claims the genesis hash, and every block has positive work (C09). -/
 def WF (bs : List BlockAbs) : Prop :=
   (∀ a ∈ bs, ∀ b ∈ bs, a.hash = b.hash → a = b) ∧ (∀ a ∈ bs, a.hash ≠ 0) ∧ (∀ a ∈ bs, 0 < a.work)
+
+instance (bs : List BlockAbs) : Decidable (WF bs) := by unfold WF; exact inferInstance
+
+/-- the history consists of deliveries only (no InvalidateBlock / ReconsiderBlock) -/
+def deliveryOnly : List Op → Prop
+  | [] => True
+  | .block _ :: r => deliveryOnly r
+  | .header _ :: r => deliveryOnly r
+  | _ :: _ => False
+
+instance deliveryOnlyDec : (ops : List Op) → Decidable (deliveryOnly ops)
+  | [] => isTrue trivial
+  | .block _ :: r => deliveryOnlyDec r
+  | .header _ :: r => deliveryOnlyDec r
+  | .invalidate _ _ :: _ => isFalse (fun h => h)
+  | .reconsider _ _ :: _ => isFalse (fun h => h)
 
 /-! Executable counterpart used by the driver to answer from the Spec: cumulative work of the valid
 delivered chain ending in `h`, if there is one (`fuel` bounds the walk to genesis). `excl` lists
